@@ -429,6 +429,8 @@ def check_C09(tier, seed):
                             "table (quick: stride 53; thorough: all 1,114,112 code points); TLC decodes each literal with the payload layer of JsonText and compares text, Ok/Err and borrowed-ness")
     generic_record_validate("C09", res, "st-record", ["--seed", seed, "--n", 6000 if tier == QUICK else 400000, "--mode", "sweep"], "Trace_Strings", {}, "sweep")
     generic_record_validate("C09", res, "st-record", ["--seed", seed, "--n", 53 if tier == QUICK else 1, "--mode", "codepoints"], "Trace_Strings", {}, "codepoints")
+    # the library built with its utf8_lossy feature: from_slice / from_str are lossy decoders themselves
+    generic_record_validate("C09", res, "st-record", ["--seed", seed + 9, "--n", 3000 if tier == QUICK else 200000, "--mode", "sweep"], "Trace_Strings", {}, "sweep_feature_lossy", features=("utf8_lossy",))
     return res.finish()
 
 
@@ -827,6 +829,8 @@ def check_C06(tier, seed):
     generic_record_validate("C06", res, "sr-record", ["--seed", seed, "--n", 4000 if tier == QUICK else 200000, "--mode", "rt"], "Trace_Ser", {}, "rt")
     # the same round trips through a harness built with sonic-rs's sort_keys feature
     generic_record_validate("C06", res, "sr-record", ["--seed", seed + 6, "--n", 2500 if tier == QUICK else 100000, "--mode", "rt"], "Trace_Ser", {}, "rt_sort_keys", features=("sort_keys",))
+    # ... and one built with its arbitrary_precision feature (from_slice keeps every number literal verbatim)
+    generic_record_validate("C06", res, "sr-record", ["--seed", seed + 7, "--n", 1500 if tier == QUICK else 80000, "--mode", "rt"], "Trace_Ser", {}, "rt_arbitrary_precision", features=("arbitrary_precision",))
     return res.finish()
 
 
